@@ -187,6 +187,47 @@ def buildRdbUnit (cluster replaceHashTag : Bool) (key : Bytes) (cmds : List Cmd)
   let slot := if cluster then Slot.keyToSlot (rdbTargetKey replaceHashTag key) else 0
   { slot := slot, slotTag := slotTag slot, cmds := cmds }
 
+/-! ### the commands of a snapshot unit (captureBisyncRdbExpandedCommands,
+    captureBisyncRdbRestoreCommand, the DEL prefix of buildBisyncRdbReplayUnit) -/
+
+def rDel : Bytes := [100,101,108]
+def rPexpire : Bytes := [112,101,120,112,105,114,101]
+def rRestore : Bytes := [114,101,115,116,111,114,101]
+
+/-- `rewriteBisyncRdbCommandKeys`: the key positions the static tables name
+    that hold the source key get the target key; nothing to do when the
+    source key is empty or equal to the target key -/
+def rewriteRdbKeys (name : Bytes) (args : List Bytes) (src tgt : Bytes) : List Bytes :=
+  if src.isEmpty || src == tgt then args
+  else
+    match Filter.keyIndexes name args with
+    | none => args
+    | some idx => args.mapIdx (fun i a => if idx.contains i && a == src then tgt else a)
+
+/-- the expanded form: what the object parser hands over (`raw`), names
+    lower-cased and keys rewritten, behind an optional `del <target>` (first
+    bin, keyExists = replace) and followed by `pexpire <target> <ttl>` when
+    the entry carries an expiry -/
+def rdbExpanded (src tgt : Bytes) (raw : List Cmd) (delPrefix : Bool) (ttl : Option Bytes) : List Cmd :=
+  (if delPrefix then [⟨rDel, [tgt]⟩] else []) ++
+  raw.map (fun c => ⟨lower c.name, rewriteRdbKeys (lower c.name) c.args src tgt⟩) ++
+  (match ttl with
+   | some t => [⟨rPexpire, [tgt, t]⟩]
+   | none => [])
+
+/-- the RESTORE form: `restore <target> <ttl> <dump> [IDLETIME n] [FREQ n] [REPLACE]` -/
+def rdbRestore (tgt ttl dump : Bytes) (opts : List Bytes) : List Cmd := [⟨rRestore, tgt :: ttl :: dump :: opts⟩]
+
+def rREPLACE : Bytes := [82,69,80,76,65,67,69]
+
+/-- the command list of `buildBisyncRdbReplayUnit` for a keyed entry: RESTORE
+    when `bisyncRdbUseRestore` says so (REPLACE iff keyExists = replace), the
+    expanded form otherwise (DEL prefix iff first bin and keyExists = replace) -/
+def rdbCommands (useRestore firstBin replaceExisting : Bool) (src tgt : Bytes) (raw : List Cmd)
+    (ttl : Option Bytes) (ttlArg dump : Bytes) : List Cmd :=
+  if useRestore then rdbRestore tgt ttlArg dump (if replaceExisting then [rREPLACE] else [])
+  else rdbExpanded src tgt raw (firstBin && replaceExisting) ttl
+
 /-! ### the transaction a unit is committed with (dispatchBisyncUnit /
     execBisyncRdbUnit): marker, business commands, record, index -/
 
